@@ -166,6 +166,9 @@ const two53 = int64(1) << 53
 //	  JSON string that is not valid UTF-8 (encoding/json coerces to U+FFFD).
 func classify(codec string, d leafDiff) (judged bool, class string) {
 	origLeaf := d.orig
+	if codec == "json-file" {
+		codec = "json"
+	}
 	switch d.Kind {
 	case "time.Time":
 		t := origLeaf.Interface().(time.Time)
